@@ -56,9 +56,24 @@ class Nd:
         self.tag, self.attrs, self.text, self.children, self.tail = tag, list(attrs or []), text, list(children or []), tail
 
 
+# how elements without content are written: "never" <t></t>, "always" <t/>, "random" per element
+_SC = {"mode": "never", "rng": None}
+
+
+def set_selfclose(mode, rng=None):
+    _SC["mode"], _SC["rng"] = mode, rng
+
+
+def _selfclose_now() -> bool:
+    m = _SC["mode"]
+    return m == "always" or (m == "random" and _SC["rng"].random() < 0.5)
+
+
 def nd_xml(n: Nd) -> str:
     a = "".join(f" {k}={quoteattr(v)}" for k, v in n.attrs)
     inner = xesc(n.text) + "".join(nd_xml(c) for c in n.children)
+    if not inner and _selfclose_now():
+        return f"<{n.tag}{a}/>" + xesc(n.tail)
     return f"<{n.tag}{a}>{inner}</{n.tag}>" + xesc(n.tail)
 
 
@@ -161,13 +176,39 @@ def rfgrid(rng, maxr=4, maxc=4, ragged=False):
     return [[rfcell(rng) for _ in range(c if not ragged else rng.randint(1, maxc))] for _ in range(r)]
 
 
+def force_empties(g, rng, empty):
+    """empty cells in the first, a middle and the last column, and (sometimes) an empty first / last row"""
+    for r in g:
+        if r:
+            for j in {0, len(r) // 2, len(r) - 1}:
+                if rng.random() < 0.5:
+                    r[j] = empty()
+    if rng.random() < 0.5:
+        g[0] = [empty() for _ in g[0]]
+    if rng.random() < 0.5:
+        g[-1] = [empty() for _ in g[-1]]
+    return g
+
+
+# grids with empty cells in every border position, an empty first row and an empty last row
+EDGE_GRIDS = [
+    [["", "b", "c"], ["d", "", "f"], ["g", "h", ""], ["j", "k", "l"]],
+    [["", "", ""], ["a", "", "c"], ["", "e", ""], ["", "", ""]],
+    [["", "x"], ["", ""], ["y", ""]],
+    [[""]],
+]
+
+
 def rdoc(rng, nested: bool, ragged=False):
     d = []
     for _ in range(rng.randint(1, 4)):
         if rng.random() < 0.35:
             d.append(("p", rpara(rng)))
         else:
-            g = [[[("p", p) for p in c] for c in r] for r in rfgrid(rng, ragged=ragged)]
+            fg = rfgrid(rng, ragged=ragged)
+            if rng.random() < 0.6:
+                force_empties(fg, rng, lambda: [[]] if rng.random() < 0.7 else [[""]])
+            g = [[[("p", p) for p in c] for c in r] for r in fg]
             if nested:
                 r = rng.choice(g)
                 c = rng.choice(r)
@@ -694,7 +735,10 @@ def html_r_root(w, d):
 def html_src(nd: Nd) -> str:
     """serialise the html > body subtree of a rendered root"""
     def go(n):
-        return f"<{n.tag}>" + htmlmod.escape(n.text, quote=False) + "".join(go(c) for c in n.children) + f"</{n.tag}>" + htmlmod.escape(n.tail, quote=False)
+        inner = htmlmod.escape(n.text, quote=False) + "".join(go(c) for c in n.children)
+        if not inner and n.tag in ("td", "th") and _selfclose_now():
+            return f"<{n.tag}/>" + htmlmod.escape(n.tail, quote=False)       # XHTML-style empty cell
+        return f"<{n.tag}>" + inner + f"</{n.tag}>" + htmlmod.escape(n.tail, quote=False)
     return go(nd.children[0])
 
 
@@ -967,7 +1011,7 @@ def xls_run(grids):
 
 
 # ----------------------------------------------------------------------------- RTF (oracle only)
-def rtf_doc(tables, sep):
+def rtf_doc(tables, sep, row_sep="\n"):
     def esc(t):
         return t.replace("\\", "\\\\").replace("{", "\\{").replace("}", "\\}")
     out = "{\\rtf1\\ansi\\deff0{\\fonttbl{\\f0 Times;}}\\pard Intro paragraph.\\par\n"
@@ -976,7 +1020,7 @@ def rtf_doc(tables, sep):
             out += sep
         for r in g:
             out += "\\trowd" + "".join(f"\\cellx{(j + 1) * 2000}" for j in range(len(r))) + "\n"
-            out += "".join("\\intbl " + esc(c) + "\\cell " for c in r) + "\\row\n"
+            out += "".join("\\intbl " + esc(c) + "\\cell " for c in r) + "\\row" + row_sep
     return out + "\\pard End.\\par}"
 
 
@@ -1263,6 +1307,7 @@ def fixed_cases(ctx, B, dim_cases):
     if tabs != want:
         ctx.finding("epub-blank-table-lost", f"EPUB: an all-empty 2x3 table between two filled tables is not returned in place: got {tabs!r}",
                     {"format": "epub", "xhtml_body": body, "got": tabs, "want": want})
+    edge_cases(ctx, B)
     # ODS: numbers in exponent form without a dot stay numeric
     g = [[("N", "5e3"), ("N", "1E+020"), ("N", "7"), ("N", "2.50"), ("N", "2.5e-1"), ("N", "-4E2")]]
     wantv = [[5000, 10 ** 20, 7, 2.5, 0.25, -400]]
@@ -1282,7 +1327,127 @@ def fixed_cases(ctx, B, dim_cases):
                         {"format": "ods", "values": [c[1] for c in g[0]], "got": repr(None if tabs is None else tabs[0]), "want": repr(wantv)})
 
 
+def edge_cases(ctx, B):
+    """EDGE_GRIDS (empty cells in first/middle/last column, empty first and last row) through every format, with
+    every serialisation of an empty element; RTF with every continuation after \\row and tight empty cells."""
+    import itertools
+    from html.parser import HTMLParser as HP
+    from sharepoint2text.parsing.extractors import html_extractor as H, epub_extractor as EP
+    T3 = "list (list (list str))"
+    # tokenizer-level fact the event/tree models rest on: <x/> is replayed as start;end
+    for cls in (EP._XhtmlTextExtractor, H._HtmlTreeBuilder):
+        same = cls.handle_startendtag is HP.handle_startendtag
+        ctx.obligation(f"startend=start;end: {cls.__name__} does not override HTMLParser.handle_startendtag", same,
+                       "handle_startendtag is overridden: XHTML empty-element syntax (<td/>) no longer goes through handle_starttag + handle_endtag")
+    for gi, g in enumerate(EDGE_GRIDS):
+        for mode, empty in itertools.product(SC_MODES[:2], ([[]], [])):
+            set_selfclose(mode)
+            fg = [[[[c]] if c else [list(p) for p in empty] for c in r] for r in g]
+            d = [("p", ["before"]), ("t", [[[("p", p) for p in c] for c in r] for r in fg]), ("p", ["after"])]
+            tag = f"edge{gi}:{mode}:{'p' if empty else 'nop'}"
+            tree, tabs, _ = docx_run(docx_file(docx_r_body(d)))
+            B["docx"].add(f"({coq_doc(d)}, {coq_nd(tree)}, {coq_tables(tabs)})", ("edge", "docx", tag))
+            if tabs != [g]:
+                ctx.finding("docx-edge-grid-mismatch", f"DOCX [{tag}]: grid with empty border cells / rows: got {tabs!r} want {[g]!r}",
+                            {"format": "docx", "grid": g, "serialisation": tag, "got": tabs})
+            tree, tabs, _ = odt_run(odf_file(nd_xml(odt_r_body(d)), "text"))
+            B["odt"].add(f"({coq_doc(d)}, {coq_nd(tree)}, {coq_tables(tabs)})", ("edge", "odt", tag))
+            if tabs != [g]:
+                ctx.finding("odt-edge-grid-mismatch", f"ODT [{tag}]: grid with empty border cells / rows: got {tabs!r} want {[g]!r}",
+                            {"format": "odt", "grid": g, "serialisation": tag, "got": tabs})
+            tbls, tabs, _ = odp_run(odp_file([odf_r_ftable(fg)]))
+            if len(tabs) == 1:
+                B["odp"].add(f"({coq_fgrid(fg)}, {coq_nd(tbls[0])}, {coq_sgrid(tabs[0])})", ("edge", "odp", tag))
+            if tabs != [g]:
+                ctx.finding("odp-edge-grid-mismatch", f"ODP [{tag}]: grid with empty border cells / rows: got {tabs!r} want {[g]!r}",
+                            {"format": "odp", "grid": g, "serialisation": tag, "got": tabs})
+            frames, tabs, _ = pptx_run(pptx_file([pptx_r_frame(fg)]))
+            if len(tabs) == 1:
+                B["pptx"].add(f"({coq_fgrid(fg)}, {coq_nd(frames[0])}, (Some {coq_sgrid(tabs[0])}))", ("edge", "pptx", tag))
+            if tabs != [g]:
+                ctx.finding("pptx-edge-grid-mismatch", f"PPTX [{tag}]: grid with empty border cells / rows: got {tabs!r} want {[g]!r}",
+                            {"format": "pptx", "grid": g, "serialisation": tag, "got": tabs})
+            ctx.case(("edge", tag), True, "edge")
+        # ODS: string cells; trailing empty rows / columns are outside the used range
+        for mode, rle_mode in itertools.product(SC_MODES[:2], (False, True)):
+            set_selfclose(mode)
+            og = [[("S", [c]) if c else ("E",) for c in r] for r in g]
+            tbls, tabs, _, err = ods_run(ods_file([ods_r_sheet(og, rle_mode)]))
+            it, ft = int_table(tbls[0], {"table:number-columns-repeated", "table:number-rows-repeated", "text:c"}), flt_table(tbls[0])
+            res = "None" if tabs is None else f"(Some {coq_vgrid(tabs[0])})"
+            B["odsrle" if rle_mode else "odsplain"].add(
+                f"({coq_int_table(it)}, {coq_flt_table(ft)}, {coq_list([coq_list([coq_ocell(c) for c in r]) for r in og])}, {coq_nd(tbls[0])}, {res})",
+                ("edge", "ods", gi, mode))
+            spec = [[c or None for c in r] for r in g]
+            while spec and all(v is None for v in spec[-1]):
+                spec.pop()
+            w = max((max((j + 1 for j, v in enumerate(r) if v is not None), default=0) for r in spec), default=0)
+            spec = [(r + [None] * w)[:w] for r in spec]
+            ctx.case(("edge", "ods", gi, mode, rle_mode), True, "edge")
+            if tabs is None or tabs[0] != spec:
+                ctx.finding("ods-edge-grid-mismatch", f"ODS [edge{gi}:{mode}:rle={rle_mode}]: got {None if tabs is None else tabs[0]!r} want {spec!r}",
+                            {"format": "ods", "grid": g, "got": repr(None if tabs is None else tabs[0]), "want": repr(spec)})
+        set_selfclose("never")
+        # HTML / EPUB: <td/>, <td></td>, <td> </td>, <td />
+        for ev in ("<{t}/>", "<{t}></{t}>", "<{t}> </{t}>", "<{t} />"):
+            for tg in ("td", "th"):
+                rows = "".join("<tr>" + "".join((ev.format(t=tg) if c == "" else f"<{tg}>{c}</{tg}>") for c in r) + "</tr>" for r in g)
+                body = "<p>before</p><table>" + rows + "</table><p>after</p>"
+                src = "<html><body>" + body + "</body></html>"
+                tree, tabs, _ = html_run(src)
+                B["htmltree"].add(f"({coq_nd(tree)}, {coq_tables(tabs)})", ("edge", src))
+                if tabs != [g]:
+                    ctx.finding("html-edge-grid-mismatch", f"HTML: empty cells written as {ev.format(t=tg)}: got {tabs!r} want {[g]!r}",
+                                {"format": "html", "html": src, "got": tabs, "want": [g]})
+                evs, tabs, _ = epub_run([xhtml(body)])
+                B["epub"].add(f"({coq_events(evs)}, {coq_tables(tabs)})", ("edge", body))
+                if tabs != [g]:
+                    ctx.finding("epub-edge-grid-mismatch", f"EPUB: empty cells written as {ev.format(t=tg)}: got {tabs!r} want {[g]!r}",
+                                {"format": "epub", "xhtml_body": body, "got": tabs, "want": [g]})
+                ctx.case(("edge", src), True, "edge")
+        # RTF: what follows \\row, and empty cells as bare \\cell
+        for tight, sep in itertools.product((False, True), ("", " ", "\n", "}{", "\\pard")):
+            text = "{\\rtf1\\ansi " + "".join("\\trowd" + "".join(("" if (tight and c == "") else " " + c) + "\\cell" for c in r) + "\\row" + sep for r in g) + "}"
+            tabs, dims = rtf_impl_text(text)
+            ctx.case(("edge", "rtf", text), True, "edge")
+            if tabs is None:
+                ctx.finding("rtf-extraction-raised", f"RTF: read_rtf raised on a generated document: {dims}", {"format": "rtf", "rtf": text})
+                continue
+            B["rtfgen"].add(f"({coq_bool(tight)}, {coq_str(sep)}, {coq_sgrid(g)}, {coq_str(text)}, {coq_tables(tabs)})", ("edge", text))
+            if tabs != [g]:
+                ctx.finding("rtf-edge-grid-mismatch", f"RTF: rows ending in \\row{sep!r} (tight empty cells={tight}): got {tabs!r} want {[g]!r}",
+                            {"format": "rtf", "rtf": text, "got": tabs, "want": [g]})
+        # the same in \\cellx / \\intbl syntax, rows glued in different ways
+        for row_sep in ("", " ", "\n", "\\pard", "\\pard\\plain "):
+            text = rtf_doc([g], "", row_sep=row_sep)
+            tabs, dims = rtf_impl_text(text)
+            if tabs is None:
+                continue
+            B["rtftext"].add(f"({coq_str(text)}, {coq_tables(tabs)})", ("edge", text))
+            ctx.case(("edge", "rtfcellx", text), True, "edge")
+            if tabs != [g]:
+                ctx.finding("rtf-edge-grid-mismatch", f"RTF (\\cellx syntax): rows ending in \\row{row_sep!r}: got {tabs!r} want {[g]!r}",
+                            {"format": "rtf", "rtf": text, "got": tabs, "want": [g]})
+    # first \\trowd at offset 0 of a group, rows glued
+    text = "{\\rtf1{\\trowd a\\cell\\row\\trowd b\\cell\\row}}"
+    tabs, dims = rtf_impl_text(text)
+    if tabs is not None:
+        B["rtftext"].add(f"({coq_str(text)}, {coq_tables(tabs)})", ("edge", text))
+        if tabs != [[["a"], ["b"]]]:
+            ctx.finding("rtf-edge-grid-mismatch", f"RTF: group starting with \\trowd, glued rows: got {tabs!r} want [[['a'], ['b']]]",
+                        {"format": "rtf", "rtf": text, "got": tabs})
+
+
+def rtf_impl_text(text):
+    from sharepoint2text.parsing.extractors.ms_legacy import rtf_extractor as RTF
+    try:
+        return tables_of(next(iter(RTF.read_rtf(io.BytesIO(text.encode("utf-8"))))))
+    except Exception as e:  # noqa
+        return None, repr(e)
+
+
 # ----------------------------------------------------------------------------- the check
+SC_MODES = ["never", "always", "random"]
 PRE = ("From Coq Require Import ZArith List Bool.\nFrom S2T Require Import Lib.PyStr C13.Model C13.Corr C13.ProofsHtml "
        "C13.ProofsSheets C13.ProofsOds C13.ProofsTree C13.Witness Gen.C13Tables.\n"
        "Import ListNotations.\nOpen Scope N_scope.\n")
@@ -1334,21 +1499,21 @@ def run(ctx):
     ok1, _ = ctx.prove("C13/Props.v", timeout=400, deps=["C13/ProofsHtml.vo", "C13/ProofsOds.vo", "C13/ProofsSheets.vo", "C13/ProofsTree.vo", "C13/ProofsRtf.vo"],
                        expected=["C13_get_dim_is_shape", "C13_get_dim_rect", "C13_xls_get_dim_is_shape",
                                  "C13_docx_tables_flat", "C13_docx_adjacent", "C13_docx_tables_preorder", "C13_docx_toplevel_refuted",
-                                 "C13_pptx_table_roundtrip", "C13_odt_tables_flat", "C13_odt_nested_refuted", "C13_odp_table_flat",
+                                 "C13_pptx_table_roundtrip", "C13_odt_tables_flat", "C13_odt_nested_refuted", "C13_odp_table_flat", "C13_odp_cell_comment_skipped",
                                  "C13_html_tables_roundtrip", "C13_html_adjacent", "C13_html_nested_refuted", "C13_html_multipara_refuted",
                                  "C13_epub_tables_roundtrip", "C13_epub_nested_refuted",
                                  "C13_ods_plain_roundtrip", "C13_ods_rle_roundtrip", "C13_ods_repeat_cap_refuted",
                                  "C13_xlsx_sheet_partial", "C13_xlsx_empty_header_refuted", "C13_xlsx_title_row_refuted",
                                  "C13_xlsx_typed_header_refuted", "C13_xlsx_date_header_refuted", "C13_xlsx_typed_values",
                                  "C13_ods_cell_comment_skipped", "C13_ods_nonfinite_kept_as_text",
-                                 "C13_rtf_tables_single", "C13_rtf_pad_rows_id", "C13_rtf_tables_long_separator", "C13_rtf_adjacent_tables_merged_refuted", "C13_rtf_get_dim",
+                                 "C13_rtf_tables_single", "C13_rtf_tables_single_gen", "C13_rtf_pad_rows_id", "C13_rtf_tables_long_separator", "C13_rtf_adjacent_tables_merged_refuted", "C13_rtf_get_dim",
                                  "C13_xls_sheet_partial", "C13_xls_duplicate_header_refuted",
                                  "C13_xls_header_only_refuted"])
     ctx.prove("C13/Inst.v", timeout=300, deps=["Gen/C13Tables.vo", "C13/Corr.vo", "C13/Witness.vo"], expected=["C13_live_tags_match"])
     ctx.prove("C13/InstRemove.v", timeout=300, deps=["Gen/C13Tables.vo"], expected=["C13_remove_tags_match", "C13_void_remove_tags_match"])
     ctx.prove("C13/InstSkip.v", timeout=300, deps=["Gen/C13Tables.vo"], expected=["C13_odf_skip_tags_match", "C13_span_not_skipped"])
     ctx.prove("C13/InstWs.v", timeout=300, deps=["Gen/C13Tables.vo"], expected=["C13_ws_ascii_agrees"])
-    ctx.prove("C13/InstRtf.v", timeout=300, deps=["Gen/C13Tables.vo", "C13/ProofsRtf.vo"], expected=["C13_rtf_special_chars_match", "C13_rtf_oracle_facts", "C13_rtf_tables_single_live"])
+    ctx.prove("C13/InstRtf.v", timeout=300, deps=["Gen/C13Tables.vo", "C13/ProofsRtf.vo"], expected=["C13_rtf_special_chars_match", "C13_rtf_oracle_facts", "C13_rtf_tables_single_live", "C13_rtf_tables_single_gen_live"])
 
     n = ctx.n(60, 450)
     B = {}
@@ -1363,6 +1528,7 @@ def run(ctx):
     b_docx_t = batch("docxtree", "corr_docx_tree", f"xml * {T3}")
     for i in range(n):
         nested = i % 4 == 3
+        set_selfclose(SC_MODES[i % 3], rng)
         d = rdoc(rng, nested, ragged=(i % 5 == 0))
         tree, tabs, dims = docx_run(docx_file(docx_r_body(d)))
         check_dims(ctx, "docx", tabs, dims, dim_cases)
@@ -1403,6 +1569,7 @@ def run(ctx):
     b_odt_t = batch("odttree", "corr_odt_tree", f"list (str * option Z) * xml * {T3}")
     for i in range(n):
         nested = i % 4 == 3
+        set_selfclose(SC_MODES[i % 3], rng)
         d = rdoc(rng, nested, ragged=(i % 5 == 0))
         tree, tabs, dims = odt_run(odf_file(nd_xml(odt_r_body(d)), "text"))
         check_dims(ctx, "odt", tabs, dims, dim_cases)
@@ -1427,7 +1594,8 @@ def run(ctx):
     # ---------------- ODP
     b_odp = batch("odp", "corr_odp", "fgrid * xml * list (list str)")
     for i in range(n // 2):
-        gs = [rfgrid(rng, ragged=(i % 5 == 0)) for _ in range(rng.randint(1, 3))]
+        set_selfclose(SC_MODES[i % 3], rng)
+        gs = [force_empties(rfgrid(rng, ragged=(i % 5 == 0)), rng, lambda: [[]] if rng.random() < 0.5 else []) for _ in range(rng.randint(1, 3))]
         tbls, tabs, dims = odp_run(odp_file([odf_r_ftable(g) for g in gs]))
         check_dims(ctx, "odp", tabs, dims, dim_cases)
         want = [[["\n".join(para_text(p) for p in c) for c in r] for r in g] for g in gs]
@@ -1439,10 +1607,36 @@ def run(ctx):
             for g, t, r in zip(gs, tbls, tabs):
                 b_odp.add(f"({coq_fgrid(g)}, {coq_nd(t)}, {coq_sgrid(r)})", ("odp", g))
 
+    # ODP tables outside the render grammar: comments in cells, spans, header rows
+    b_odp_t = batch("odptree", "corr_odp_tree", "list (str * option Z) * xml * list (list str)")
+    set_selfclose("never")
+    for i in range(n // 3):
+        rows = []
+        for _ in range(rng.randint(1, 3)):
+            cells = []
+            for _ in range(rng.randint(1, 3)):
+                kids = []
+                if rng.random() < 0.4:
+                    kids.append(E("office:annotation", [E("dc:creator", text="me"), E("text:p", text="note " + rtext(rng, 0, 2, "ab"))]))
+                kids += [odf_extra_para(rng) for _ in range(rng.randint(0, 2))]
+                cells.append(E("table:table-cell", kids))
+            rows.append(E("table:table-row", cells))
+        if len(rows) > 1 and rng.random() < 0.4:
+            rows = [E("table:table-header-rows", rows[:1])] + rows[1:]
+        tb = E("table:table", [E("table:table-column")] + rows)
+        tbls, tabs, dims = odp_run(odp_file([tb]))
+        ctx.case(("odptree", nd_xml(tb)), any(tabs), "odp:extra")
+        if len(tabs) == 1:
+            b_odp_t.add(f"({coq_int_table(int_table(tbls[0], {'text:c'}))}, {coq_nd(tbls[0])}, {coq_sgrid(tabs[0])})", ("odptree", nd_xml(tb)))
+        if any("note" in c for tt in tabs for r in tt for c in r):
+            ctx.finding("odp-cell-comment-text-in-cell-value", "ODP: the text of a comment (office:annotation) inside a table cell appears in the cell text",
+                        {"format": "odp", "table_xml": nd_xml(tb), "got": tabs})
+
     # ---------------- PPTX
     b_pptx = batch("pptx", "(corr_pptx py_is_ws)", "fgrid * xml * option (list (list str))")
     for i in range(n // 2):
-        gs = [rfgrid(rng, ragged=(i % 5 == 0)) for _ in range(rng.randint(1, 3))]
+        set_selfclose(SC_MODES[i % 3], rng)
+        gs = [force_empties(rfgrid(rng, ragged=(i % 5 == 0)), rng, lambda: [[]] if rng.random() < 0.5 else []) for _ in range(rng.randint(1, 3))]
         frames, tabs, dims = pptx_run(pptx_file([pptx_r_frame(g) for g in gs]))
         check_dims(ctx, "pptx", tabs, dims, dim_cases)
         want = [[["\n".join(para_text(p) for p in c).strip() for c in r] for r in g] for g in gs]
@@ -1461,7 +1655,10 @@ def run(ctx):
     for i in range(2 * n):
         rle_mode = i % 2 == 1
         wide = rle_mode and i % 6 == 1
+        set_selfclose(SC_MODES[(i // 2) % 3], rng)
         g = rogrid(rng, wide=wide)
+        if not wide and rng.random() < 0.5:
+            force_empties(g, rng, lambda: ("E",))
         sheet = ods_r_sheet(g, rle_mode)
         tbls, tabs, dims, err = ods_run(ods_file([sheet]))
         it, ft = int_table(tbls[0], {"table:number-columns-repeated", "table:number-rows-repeated", "text:c"}), flt_table(tbls[0])
@@ -1546,7 +1743,11 @@ def run(ctx):
     b_html_t = batch("htmltree", "(corr_html_tree py_is_ws)", f"xml * {T3}")
     for i in range(n):
         kind = ["simple", "simple", "nested", "paras"][i % 4]
+        set_selfclose(SC_MODES[i % 3], rng)
         d = rhdoc(rng, kind)
+        for b in d:
+            if b[0] == "t" and kind == "simple" and rng.random() < 0.6:
+                force_empties(b[1], rng, lambda: ("x", "", []))
         w = rng.choice(["", "\n", "\n  ", " "])
         root = html_r_root(w, d)
         src = "<!DOCTYPE html>" + html_src(root)
@@ -1597,12 +1798,19 @@ def run(ctx):
         ctx.case(("htmltree", src), any(tabs), "html:extra")
 
     # ---------------- EPUB
+    set_selfclose("never")
     b_epub = batch("epub", "(corr_epub py_is_ws)", f"list event * {T3}")
     for i in range(n):
         kind = ["simple", "simple", "nested", "inline"][i % 4]
         if kind == "simple":
-            gs = [[[rtext(rng, 0, 4, HALPHA) for _ in range(rng.randint(1, 4))] for _ in range(rng.randint(1, 4))] for _ in range(rng.randint(1, 3))]
-            body = "".join("<p>x</p><table>" + "".join("<tr>" + "".join(("<th>" if (ri == 0 and i % 8 == 0) else "<td>") + htmlmod.escape(c, quote=False) + ("</th>" if (ri == 0 and i % 8 == 0) else "</td>") for c in r) + "</tr>" for ri, r in enumerate(g)) + "</table>" for g in gs)
+            gs = [force_empties([[rtext(rng, 0, 4, HALPHA) for _ in range(rng.randint(1, 4))] for _ in range(rng.randint(1, 4))], rng, lambda: "")
+                  for _ in range(rng.randint(1, 3))]
+            def ecell(c, tg):
+                if c == "":
+                    return rng.choice([f"<{tg}/>", f"<{tg}></{tg}>", f"<{tg}> </{tg}>", f"<{tg} />"])
+                return f"<{tg}>" + htmlmod.escape(c, quote=False) + f"</{tg}>"
+            body = "".join("<p>x</p><table>" + "".join("<tr>" + "".join(ecell(c, "th" if (ri == 0 and i % 8 == 0) else "td") for c in r) + "</tr>"
+                                                           for ri, r in enumerate(g)) + "</table>" for g in gs)
             want = [[[" ".join(c.split()) for c in r] for r in g] for g in gs]
         elif kind == "nested":
             body = "<table><tr><td>a</td><td><table><tr><td>n</td></tr></table></td></tr><tr><td>b</td><td>c</td></tr></table>"
@@ -1695,6 +1903,7 @@ def run(ctx):
     b_rtf = batch("rtf", "(corr_rtf py_is_ws py_is_word)", f"list rblock * str * {T3r}")
     b_rtf_t = batch("rtftext", "(corr_rtf_text py_is_ws py_is_word)", f"str * {T3r}")
     b_rtf_s = batch("rtfstrip", "(corr_rtf_strip py_is_ws)", "str * str")
+    batch("rtfgen", "(corr_rtf_gen py_is_ws py_is_word)", f"bool * str * list (list str) * str * {T3r}")
     b_rtf_c = batch("rtfcells", "(corr_rtf_cells py_is_ws py_is_word)", "str * list str")
     RW = ["a", "b", "Z", "9", "x y", "caf\u00e9", "\u4e2d", "Total", "q-1", "7.5", "ab cd ef"]
     def rplain(lo=1, hi=3):
@@ -1766,7 +1975,8 @@ def run(ctx):
     # the same kind of grids in the syntax word processors write (\\cellxN definitions, \\intbl), long separators: oracle + text-level model
     for i in range(n // 3):
         gs = [[[rplain(1, 2) for _ in range(rng.randint(1, 4))] for _ in range(rng.randint(1, 3))] for _ in range(rng.randint(1, 2))]
-        text = rtf_doc(gs, "\\pard " + "A long separating paragraph between the tables, well over one hundred characters in the source text. " * 2 + "\\par\n")
+        text = rtf_doc(gs, "\\pard " + "A long separating paragraph between the tables, well over one hundred characters in the source text. " * 2 + "\\par\n",
+                       row_sep=rng.choice(["\n", "", " ", "\\pard"]))
         tabs, dims = rtf_impl(text)
         if tabs is None:
             ctx.finding("rtf-extraction-raised", f"RTF: read_rtf raised on a generated document: {dims}", {"format": "rtf", "rtf": text})
